@@ -133,10 +133,9 @@ def interval_map(s: Dict[str, Any]) -> Optional[Dict[Tuple, Tuple[float, float]]
     if tuple(b.shape[0] for b in bins) != tuple(f.shape) or f.shape != e.shape:
         return None
     out = {}
-    for idx in np.ndindex(*f.shape):
+    nz = np.argwhere((f != 0) | (e != 0))
+    for idx in map(tuple, nz.tolist()):
         c, ee = float(f[idx]), float(e[idx])
-        if c == 0 and ee == 0:
-            continue
         key = tuple((float(bins[ax][i, 0]), float(bins[ax][i, 1])) for ax, i in enumerate(idx))
         out[key] = (c, ee)
     return out
